@@ -9,8 +9,8 @@ import copy
 
 from .. import lang
 from ..lang import Unspec
-from ..session import (MOD_HOME, Sim, configure_paths, fingerprint,
-                       make_model_store, model_run, setup_store)
+from ..history import run_history
+from ..session import MOD_HOME, make_model_store, model_run
 
 ID = "C10"
 TIERS = {
@@ -513,295 +513,5 @@ def gen_case(rng, tier, k):
     return case
 
 
-# ------------------------------------------------------------------------
-# execution + oracle
-
 def run_case(case, root):
-    cfg = case["config"]
-    sim = Sim(root, cfg.get("prng", 0.5))
-    res = {"violations": [], "probes": {}, "counters": {}, "configured": {}}
-    viol = res["violations"]
-    probes = res["probes"]
-    observed = []
-
-    def V(clause, sig, detail):
-        if len(viol) < 5:
-            viol.append({"clause": clause, "sig": f"{ID}:{sig}",
-                         "detail": detail})
-
-    try:
-        setup_store(sim, case)
-        mstore = make_model_store(case)
-        machines = {}
-        baseline = {}
-        for ic in cfg["instances"]:
-            it = sim.new_interpreter(ic["name"], ic["secure"], ic["legacy"])
-            configure_paths(it, cfg["store"])
-            machines[ic["name"]] = lang.Machine(mstore, ic["name"])
-        if len(cfg["instances"]) > 1:
-            probes["two_instances"] = 1
-        names = [ic["name"] for ic in cfg["instances"]]
-        for nm in names:
-            out = sim.run(-1, nm, [], lambda nm=nm: sim.inst[nm].interpret(
-                "ls()", "probe"))
-            baseline[nm] = set(parse_ls(out["val"]))
-        envs_m = {}
-        envs_s = {}
-        persistent = []
-        prev = None
-        failed_before = False
-        kinds_seq = []
-        inconclusive = False
-        nchecked = 0
-        failed_req = set()      # (inst, module) whose load failed earlier
-        faulted_req = set()
-        for idx, op in enumerate(case["ops"]):
-            kind = op["kind"]
-            if kind == "heal":
-                sim.w.heal()
-                persistent.clear()
-                kinds_seq.append("heal")
-                continue
-            if kind == "clock":
-                sim.w.clock_offset += op["jump"]
-                kinds_seq.append("clock")
-                continue
-            inst = op.get("inst", "A")
-            if inst not in machines:
-                continue
-            m = machines[inst]
-            it = sim.inst[inst]
-            envname = op.get("env")
-            if envname is None:
-                mscope = m.session
-                senv = None
-            else:
-                key = envname if cfg.get("share_env") else \
-                    inst + ":" + envname
-                if key in envs_m and envs_m[key].parent is not m.session:
-                    probes["env_moved_between_instances"] = 1
-                if key not in envs_m:
-                    from ckl.functions import Environment
-                    envs_m[key] = lang.Scope(m.session, "scratch")
-                    envs_s[key] = Environment()
-                    probes["scratch_env"] = 1
-                mscope = envs_m[key]
-                mscope.parent = m.session
-                senv = envs_s[key]
-            if kind == "ls":
-                out = sim.run(idx, inst, [], lambda: it.interpret(
-                    "ls()", "probe", senv))
-                if out["kind"] != "val":
-                    V("session-usable", "ls-failed",
-                      f"op#{idx} ls() on {inst} failed: {out}")
-                    break
-                got = set(parse_ls(out["val"])) - baseline[inst]
-                want = mscope.names()
-                ign = set()
-                s = mscope
-                while s is not None:
-                    ign |= s.unspec
-                    s = s.parent
-                got = {x for x in got if not x.startswith("k_")} - ign
-                want = {x for x in want if not x.startswith("k_")} - ign
-                want.discard("checkerlang_module_path")
-                got.discard("checkerlang_module_path")
-                observed.append({"op": idx, "ls_extra": sorted(got - want),
-                                 "ls_missing": sorted(want - got)})
-                if got != want:
-                    V("names", "ls-diff:" + ("extra" if got - want
-                                             else "missing"),
-                      f"op#{idx} ls() of {inst}: unexpected names "
-                      f"{sorted(got - want)}, missing {sorted(want - got)}")
-                    break
-                kinds_seq.append("ls")
-                nchecked += 1
-                if failed_before:
-                    probes["failed_then_later_checked"] = 1
-                continue
-            # a command
-            stmts = op["stmts"]
-            faults = op.get("faults", [])
-            for f in faults:
-                key = f["site"] + ":" + f.get("err", "EIO")
-                res["configured"][key] = res["configured"].get(key, 0) + 1
-                if f.get("persist"):
-                    persistent.append(f)
-            src = lang.render_command(stmts)
-            ev0 = {nm: len(sim.outs[nm].chunks) for nm in names}
-            try:
-                mout, mevents, mfired = model_run(m, stmts, mscope, faults,
-                                                  persistent)
-            except Unspec as e:
-                probes["unspec_abort"] = 1
-                observed.append({"op": idx, "unspec": str(e)})
-                break
-            out = sim.run(idx, inst, faults,
-                          lambda: it.interpret(src, "cmd", senv))
-            got_events = sim.outs[inst].chunks[ev0[inst]:]
-            rec = {"op": idx, "inst": inst, "src": src,
-                   "model": [mout[0], lang.vstr(mout[1])
-                             if mout[0] in ("val", "rt") else None],
-                   "sut": {k: out[k] for k in ("kind", "val", "cls", "msg")
-                           if k in out},
-                   "events": got_events, "fired": out["fired"]}
-            observed.append(rec)
-            reqmods = [s[2].get("id", s[2].get("str"))
-                       for s in lang.walk_stmts(stmts) if s[0] == "req"]
-            kinds_seq.append(cmd_kind(stmts, mout[0], faults))
-            # the mirror and the world must agree on which faults fired;
-            # otherwise the run says nothing (never a violation)
-            sfired = sorted((f["site"], f.get("err", "EIO"))
-                            for f in out["fired"])
-            if sorted(mfired) != sfired:
-                probes["fault_mirror_mismatch"] = 1
-                rec["mirror_mismatch"] = [sorted(mfired), sfired]
-                inconclusive = True
-                break
-            if out["kind"] == "budget":
-                V("terminates", "step-budget",
-                  f"op#{idx} `{src}` exceeded the step budget")
-                break
-            for nm in names:
-                if nm != inst and len(sim.outs[nm].chunks) != ev0[nm]:
-                    V("isolation", "foreign-stdout",
-                      f"op#{idx} on {inst} wrote to stdout of {nm}")
-            ok = True
-            if mout[0] == "host":
-                if out["kind"] == "val":
-                    ok = False
-                    V("outcome", "fault-ignored",
-                      f"op#{idx} `{src}`: module read was faulted "
-                      f"({faults}) yet the call returned {out['val']}")
-            elif mout[0] != out["kind"]:
-                ok = False
-                sig = f"outcome:{mout[0]}->{out['kind']}"
-                if prev_failed_same_module(failed_req, inst, reqmods) \
-                        and mout[0] != out["kind"]:
-                    sig = "residue-after-failed-require:" + sig
-                V("outcome", sig,
-                  f"op#{idx} `{src}` on {inst}: expected {rec['model']} "
-                  f"got {rec['sut']} (events {got_events})")
-            elif mout[0] == "rt" and lang.vstr(mout[1]) != out["val"]:
-                ok = False
-                V("error-value", "error-value",
-                  f"op#{idx} `{src}`: expected error value "
-                  f"{lang.vstr(mout[1])} got {out['val']} ({out.get('msg')})")
-            elif mout[0] == "val" and comparable(stmts, mout[1]) and \
-                    lang.vstr(mout[1]) != out["val"]:
-                ok = False
-                V("value", "value",
-                  f"op#{idx} `{src}` on {inst}: expected "
-                  f"{lang.vstr(mout[1])} got {out['val']}")
-            if ok and [t for _, t in mevents] != got_events:
-                ok = False
-                sig = "events"
-                if any(t.startswith("LOAD") for t in got_events) or any(
-                        t.startswith("LOAD") for _, t in mevents):
-                    sig = "load-ledger"
-                V("events", sig,
-                  f"op#{idx} `{src}` on {inst}: expected output "
-                  f"{[t for _, t in mevents]} got {got_events}")
-            if not ok:
-                break
-            nchecked += 1
-            # repeat: same failing command, same cause -> same error
-            if op.get("repeat") and prev is not None and \
-                    prev["stmts"] == stmts and prev["inst"] == inst and \
-                    prev["env"] == envname and \
-                    prev["faults_sig"] == fault_sig(faults, persistent) and \
-                    prev["mout"][0] != "val" and \
-                    prev["mout"][0] == mout[0] and \
-                    lang.vstr(prev["mout"][1]) == lang.vstr(mout[1]):
-                probes["repeat_checked"] = 1
-                a, b = prev["out"], out
-                same = all(a.get(k) == b.get(k)
-                           for k in ("kind", "val", "msg", "pos", "cls"))
-                if not same:
-                    V("repeat", "repeat-differs",
-                      f"op#{idx} repeating `{src}` gave "
-                      f"{ {k: b.get(k) for k in ('kind','val','msg','pos')} }"
-                      f" but the first time "
-                      f"{ {k: a.get(k) for k in ('kind','val','msg','pos')} }")
-                    break
-            prev = {"stmts": stmts, "inst": inst, "env": envname,
-                    "faults_sig": fault_sig(faults, persistent),
-                    "mout": mout, "out": out}
-            # probes
-            if failed_before:
-                probes["failed_then_later_checked"] = 1
-            if mout[0] != "val":
-                failed_before = True
-            for mid in reqmods:
-                if (inst, mid) in failed_req:
-                    probes["require_after_failed_require"] = 1
-                if (inst, mid) in faulted_req and not out["fired"]:
-                    probes["faulted_require_then_retry"] = 1
-                if mid in m.loaded and mout[0] == "val" and not any(
-                        t == f"LOAD {mid}|" for _, t in mevents):
-                    probes["cached_module_path"] = 1
-                if mout[0] != "val":
-                    failed_req.add((inst, mid))
-                    if out["fired"]:
-                        faulted_req.add((inst, mid))
-        res["nops"] = len(case["ops"])
-        res["checked"] = nchecked
-        res["counters"] = {"ops_checked": nchecked,
-                           "inconclusive_runs": 1 if inconclusive else 0}
-        res["fp"] = fingerprint((kinds_seq,
-                                 [o.get("inst") for o in case["ops"]]))
-        res["nontrivial"] = bool(probes.get("failed_then_later_checked"))
-        if sim.w.bypass:
-            res["counters"]["bypass_events"] = len(sim.w.bypass)
-    finally:
-        res["digest"] = sim.w.digest()
-        res["fired"] = dict(sim.w.fired)
-        res["steps"] = sim.clock.total
-        res["faulty"] = bool(sim.w.fired)
-        res["observed"] = observed[-12:]
-        sim.close()
-    return res
-
-
-def prev_failed_same_module(failed_req, inst, reqmods):
-    return any((inst, mid) in failed_req for mid in reqmods)
-
-
-def fault_sig(faults, persistent):
-    return repr(sorted(repr(sorted(f.items())) for f in
-                       list(faults) + list(persistent)))
-
-
-def cmd_kind(stmts, outcome, faults):
-    ks = []
-    for s in stmts:
-        if s[0] == "req":
-            ks.append("req-" + s[1])
-        elif s[0] in ("err", "undef", "div0", "idx", "badcall", "raw",
-                      "for", "deffn"):
-            ks.append(s[0])
-        elif s[0] == "expr":
-            ks.append("x-" + (s[1][0] if isinstance(s[1], list) else "lit"))
-        else:
-            ks.append("st")
-    return ("+".join(ks), outcome,
-            tuple(sorted(f["site"] + f.get("err", "") for f in faults)))
-
-
-def comparable(stmts, value):
-    """the value of a command is compared when it ends in an expression
-    statement yielding plain data"""
-    if not stmts or stmts[-1][0] != "expr":
-        return False
-    return lang.kind_of(value) in ("num", "string", "list", "boolean", "null")
-
-
-def parse_ls(text):
-    """['a', 'b'] -> names (ls() renders a list of strings)"""
-    t = text.strip()
-    if not (t.startswith("[") and t.endswith("]")):
-        return []
-    inner = t[1:-1].strip()
-    if not inner:
-        return []
-    return [x.strip().strip("'") for x in inner.split(",")]
+    return run_history(case, root, ID)
